@@ -22,6 +22,16 @@ CHECKS = {
             "reachability predicates, decomposition over graphs, purity and store immutability. Bounded by case count and graph size (<=8 nodes).",
             "Trusted: harness/models/t1.py (documented rule); exact differential only when perf caps are off.",
             "DESIGN.md §3 C12"),
+    "C01": ("exploration",
+            "Hypothesis-generated worlds/configs/scripts executed in 3-5 environments (warm re-run, fresh processes under other PYTHONHASHSEED values with reversed case order, perturbed perf_counter/time.time/datetime.now, 1us thread switching); metamorphic run-vs-run byte comparison",
+            "Each generated case (2-3 graphs, episodes of 3 owners incl. ties, GEL edges; validated config with caches, T1-parallel, "
+            "scheduler budget yields, GEL maintenance, reflection, hybrid, quality/MMR, perf metrics; 2-6 turns over 3 agents; BoW or the "
+            "engine's own content-hash encoder) is run in-process twice (warm) and in fresh subprocesses with different hash seeds, "
+            "reversed order, jittered/scaled/stalling fake clocks and datetime.now() shifted by hours inside the engine modules; "
+            "utterances, canonical stream bytes (paths normalised, scheduler consumed.ms masked), snapshot bodies, state digest and file "
+            "lists must be identical.",
+            "Trusted: observation layer; real OS thread schedules are sampled, not enumerated.",
+            "DESIGN.md §3 C01"),
     "C02": ("exploration",
             "Hypothesis differential/metamorphic test: same world and turn script under a base config vs base + arbitrary validated subtree behind a closed gate",
             "For each of 7 gates (perf master, parallel closed three ways, GEL, quality, hybrid, reflection, scheduler) a generated "
@@ -78,6 +88,15 @@ CHECKS = {
             "(same case with layers off) and residual nudges (existing node, label in a used hit, caps).",
             "Trusted: harness/models/t2.py; float32-vs-float64 band 1e-6; in-memory backend only (lancedb is not installed).",
             "DESIGN.md §3 C11"),
+    "C15": ("exploration",
+            "exhaustive breadth-first closure over reachable (model, implementation) states for every container + Hypothesis rule-based machines + multi-threaded rounds with schedule-independent oracles + merge determinism properties",
+            "Nine containers (LRUBytes, _NamespaceCache/LRUCache/CacheManager with injected clock, DeterministicLRU/Set, ring LRU, "
+            "DedupeRing, lock wrappers, merge) against ordered-list reference models: all op sequences over small key/cost/capacity/TTL "
+            "alphabets to fixpoint (2.4e5 transitions quick, 9.7e6 thorough) comparing return values, eviction reports, sizes, LRU order "
+            "and stats after every op; 200-step random machines; 2-4 threads under 1us switching and settrace pre-emption (no lost "
+            "update, consistency, linearizability for small histories); merge independent of worker list order.",
+            "Trusted: harness/models/lru.py written from docstrings/docs; undocumented corners (age==ttl, negative costs) are not asserted.",
+            "DESIGN.md §3 C15"),
     "C17": ("exploration",
             "exhaustive breadth-first enumeration of scheduler histories to saturation against a reference model + Hypothesis rule-based machine + generated yield decisions + real turns under a scripted clock",
             "All selection/yield histories (clock advance, next_turn, on_yield, optional rotation) for 1-4 agents, allowance 1-3, aging "
